@@ -5,7 +5,7 @@ CONSTANTS
   Listens = {"accept", "refuse", "hang"}
   InitCalls = {1}
   LateCall = 2
-  MaxD = 1
+  MaxD = 2
   EnvCancel = TRUE
   WithHist = FALSE
   Eager = FALSE
